@@ -326,6 +326,17 @@ pub trait ReadExt {
     fn read_f64_le(&mut self) -> Result<f64, IOError>;
 }
 
+/// Splits off the first `len` bytes of `buf`, or reports that fewer remain
+/// ([`bytes::Bytes::split_to`] itself panics in that case).
+#[inline]
+pub(crate) fn split_to_checked(
+    buf: &mut bytes::Bytes,
+    len: usize,
+) -> Result<bytes::Bytes, IOError> {
+    assert_remaining!(len <= buf.len(), "`len` greater than remaining");
+    Ok(buf.split_to(len))
+}
+
 impl<B> ReadExt for B
 where
     B: bytes::Buf,
